@@ -32,7 +32,7 @@ class Work:
         self.dir = os.path.join(VERIF, "work", "%s.%d" % (pid_name, os.getpid()))
         shutil.rmtree(self.dir, ignore_errors=True)
         os.makedirs(self.dir)
-        self.keep = False
+        self.keep = bool(os.environ.get("VERIF_KEEP"))
 
     def path(self, *p):
         q = os.path.join(self.dir, *p)
